@@ -711,13 +711,14 @@ func diffWire(got, want []*refcodec.Packet) string {
 
 // C20: client library.
 func C20(c *core.Ctx) {
-	c.Rep.Bound = "ENUM: CONNACK answers (codes 0-5 x SessionPresent, malformed, truncated, close, silence until the virtual connect timeout); HIST: Subscribe/Unsubscribe requests over filters {a, a/+, b} and scripted-server SUBACK (granting / refusing) / UNSUBACK / PUBLISH (4 topics, QoS 0-2, DUP) / PUBREL, BFS de-duplicated on the request states to depth 6 (quick) / 8 (thorough) and every sequence to depth 4/5; every sequence to depth 6/7 of inbound QoS 2 PUBLISH / repeated PUBLISH / PUBREL over two identifiers, one of them used again for another message; a delivery for every remaining length 5..300"
+	c.Rep.Bound = "ENUM: CONNACK answers (codes 0-5 x SessionPresent, malformed, truncated, close, silence until the virtual connect timeout); HIST: Subscribe/Unsubscribe requests over filters {a, a/+, b} and scripted-server SUBACK (granting / refusing) / UNSUBACK / PUBLISH (4 topics, QoS 0-2, DUP) / PUBREL, BFS de-duplicated on the request states to depth 6 (quick) / 8 (thorough) and every sequence to depth 4/5; a search in which the callbacks of every other request return an error; every sequence to depth 6/7 of inbound QoS 2 PUBLISH / repeated PUBLISH / PUBREL over two identifiers, one of them used again for another message; a delivery for every remaining length 5..300"
 	c.Rep.Rule = "Connect returns nil iff CONNACK code 0, otherwise the refusal code or an error, no library goroutine left and the socket closed; the message callback of a request is invoked once per delivered message whose topic matches an active (granted, not unsubscribed) filter of that request, QoS 2 duplicates suppressed, never for other topics; acknowledgements on the wire per packet (C02, client role); completion callbacks exactly once, not before the acknowledgement"
 	if c.Replay != nil {
 		fmt.Println("replay:", c.Replay.Scenario, "\n ", c.Replay.Message)
 		var hist []int
 		if json.Unmarshal(c.Replay.Input, &hist) == nil && len(hist) > 0 {
 			rops := dispatchOps(true)
+			FailingCallbacks = strings.HasPrefix(c.Replay.Scenario, "dispatch-failing-callbacks")
 			if strings.HasPrefix(c.Replay.Scenario, "dispatch-qos2-identifiers") {
 				rops = q2DispatchOps()
 			}
@@ -1015,8 +1016,12 @@ func C20(c *core.Ctx) {
 		depth int
 		dedup bool
 		sel   []int
-	}{{"dispatch", d1, true, main}, {"dispatch-sequences", d2, false, main}, {"dispatch-wildcard-siblings", d1 + 1, true, sib}, {"dispatch-dollar-topic", d2 + 2, false, dollar}} {
+	}{{"dispatch", d1, true, main}, {"dispatch-sequences", d2, false, main}, {"dispatch-wildcard-siblings", d1 + 1, true, sib}, {"dispatch-dollar-topic", d2 + 2, false, dollar},
+		// fifth search: the callbacks of every other request (the first included) return an
+		// error after taking the message - the other requests' callbacks are invoked all the same
+		{"dispatch-failing-callbacks", d1 - 1, true, main}} {
 		s := s
+		FailingCallbacks = s.name == "dispatch-failing-callbacks"
 		mapped := func(h []int) []int {
 			if s.sel == nil {
 				return h
